@@ -25,6 +25,9 @@ REQUIRED = {
     "mon:stream.bytes==data[offset:]": 200,
     "mon:stream.lazy": 100,
     "mon:ctype.roundtrip": 100,
+    "mon:ctype.parameters-not-shared": 100,
+    "mon:stream.each-evaluation-from-the-offset": 100,
+    "mon:decode.reading-text-leaves-the-declared-type-alone": 200,
     "mon:eq.agrees": 100,
     "mon:snapshot.unaffected": 20,
     "mon:roundtrip.text": 50,
@@ -73,6 +76,8 @@ def x_decode(ctx, case):
     except UnicodeError as e:
         expected, exp_err = None, e
     c = Content(_ct(charset), lambda: list(parts))
+    twin = Content(_ct(charset), lambda: list(parts))      # built identically, never read as text
+    rendered_before = repr(c.content_type)
     ctx.check(b"".join(c.iter_bytes()) == data, "decode.bytes==concatenation",
               lambda: {"parts": parts})
     for how, fn in (("as_text", c.as_text), ("iter_text", lambda: "".join(c.iter_text()))):
@@ -87,6 +92,11 @@ def x_decode(ctx, case):
             ctx.check(err is None and got == expected, "decode.as_text==whole.decode",
                       lambda: {"how": how, "got": got, "expected": expected, "err": repr(err),
                                "parts": parts, "charset": charset})
+    ctx.check(repr(c.content_type) == rendered_before and c == twin
+              and c.content_type.parameters == ({"charset": charset} if charset else {}),
+              "decode.reading-text-leaves-the-declared-type-alone",
+              lambda: {"type before": rendered_before, "after": repr(c.content_type),
+                       "equal to an identically built content": c == twin})
     return len(parts) > 1 or len(data) > 0
 
 
@@ -212,6 +222,19 @@ def x_stream(ctx, case):
         it = c.iter_bytes()
         ctx.check(not s.ops, "stream.lazy", lambda: {"ops after iter_bytes()": s.ops})
         chunks = list(it)
+        if off is not None:
+            # every serialisation seeks to the requested offset again: ==, as_text, two detail-gathering
+            # rounds all read the same bytes
+            again = b"".join(c.iter_bytes())
+            ctx.check(again == expected, "stream.each-evaluation-from-the-offset",
+                      lambda: {"second evaluation": again, "expected": expected, "ops": s.ops})
+            part = c.iter_bytes()
+            next(part, None)                  # an abandoned partial read ...
+            third = b"".join(c.iter_bytes())  # ... does not shorten the next one
+            ctx.check(third == expected, "stream.each-evaluation-from-the-offset",
+                      lambda: {"evaluation after an abandoned partial read": third, "expected": expected})
+        else:
+            ctx.count("mon:stream.each-evaluation-from-the-offset")
     if bn:
         n_ops = len(s.ops)
         chunks = list(c.iter_bytes())
@@ -304,6 +327,21 @@ def x_ctype(ctx, case):
     rev = ContentType(case["type"], case["sub"], dict(reversed(list(case["params"].items()))))
     ctx.check(repr(rev) == rendered, "ctype.render-order-independent",
               lambda: {"a": rendered, "b": repr(rev)})
+    # the public `parameters` of one ContentType are its own: filling them in does not leak into types
+    # created without parameters (or into the caller's dict being shared between two types)
+    one = ContentType(case["type"], case["sub"])
+    one.parameters["charset"] = "utf8"
+    one.parameters["header"] = "present"
+    others = [ContentType("text", "x-log"), ContentType("text", "x-log", None), ContentType("text", "x-log", {})]
+    from testtools.content import Content, JSON
+    leaks = [o.parameters for o in others if o.parameters] + ([JSON.parameters] if JSON.parameters else [])
+    try:
+        text = Content(others[0], lambda: [b"caf\xe9"]).as_text()
+    except Exception as e:  # noqa
+        text = repr(e)
+    ctx.check(not leaks and text == "caf\xe9" and repr(others[0]) == "text/x-log", "ctype.parameters-not-shared",
+              lambda: {"leaked": leaks, "charset-less text decoded as": text, "rendered": repr(others[0])})
+    del one.parameters["charset"], one.parameters["header"]
     return bool(case["params"])
 
 
